@@ -179,6 +179,13 @@ pub mod nest {
 #[rustfmt::skip]
 pub mod l1 { use super::*; #[memo] pub fn z(db: &TestDatabase) -> u32 { let _ = db; 21000 } } pub mod l2 { use super::*; #[memo] pub fn z(db: &TestDatabase) -> u32 { let _ = db; 22000 } }
 
+// ---- layout-controlled sites: permuted / doubled bytes in `module:line:column` (lay.rs) --------
+pub mod lay;
+// ---- one macro_rules! invocation defining the function in several places (gen.rs) --------------
+pub mod gen;
+// ---- one include!-d file defining the function in two modules (inc.rs + inc_f.rs) --------------
+pub mod inc;
+
 /// How a parameter is turned into a `ParamId` by the macro (`ArgType::Other`, owned): the harness
 /// rebuilds the parameter list to probe a predicted key.
 #[derive(Clone, Copy)]
@@ -187,8 +194,11 @@ pub enum Arg {
     U64,
 }
 
+#[derive(Clone, Copy)]
 pub struct Entry {
-    /// module path :: container :: name, as T4 prints it
+    /// module path :: container :: name, as T4 prints it; for a function T4 cannot place (macro
+    /// generated, include!-d) `~sigtag~arity~module_path~line~column~label`, built at run time from
+    /// what module_path!() / line!() / column!() are inside the expansion
     pub qid: &'static str,
     pub base: u32,
     pub args: &'static [Arg],
@@ -222,12 +232,40 @@ pub const ENTRIES: &[Entry] = &[
     Entry { qid: "hx_memo::samesig::local::{fn#via2}::l", base: 19000, args: &[Arg::U32], call: |db, x| local::via2(db, x[0]), family: 9 },
     Entry { qid: "hx_memo::samesig::l1::z", base: 21000, args: &[], call: |db, _| *l1::z(db), family: 10 },
     Entry { qid: "hx_memo::samesig::l2::z", base: 22000, args: &[], call: |db, _| *l2::z(db), family: 10 },
+    Entry { qid: "hx_memo::samesig::lay::{impl#LA}::r", base: 30000, args: &[Arg::U32], call: |db, x| *lay::LA::r(db, x[0]), family: 11 },
+    Entry { qid: "hx_memo::samesig::lay::{impl#LB}::r", base: 31000, args: &[Arg::U32], call: |db, x| *lay::LB::r(db, x[0]), family: 11 },
+    Entry { qid: "hx_memo::samesig::lay::{impl#LC}::r", base: 32000, args: &[Arg::U32], call: |db, x| *lay::LC::r(db, x[0]), family: 11 },
+    Entry { qid: "hx_memo::samesig::lay::v4::p", base: 33000, args: &[Arg::U32], call: |db, x| *lay::v4::p(db, x[0]), family: 12 },
+    Entry { qid: "hx_memo::samesig::lay::v3::p", base: 34000, args: &[Arg::U32], call: |db, x| *lay::v3::p(db, x[0]), family: 12 },
+    Entry { qid: "hx_memo::samesig::lay::{impl#LD}::s", base: 35000, args: &[Arg::U32], call: |db, x| *lay::LD::s(db, x[0]), family: 13 },
+    Entry { qid: "hx_memo::samesig::lay::{impl#LE}::s", base: 36000, args: &[Arg::U32], call: |db, x| *lay::LE::s(db, x[0]), family: 13 },
 ];
 
-pub const FAMILIES: usize = 11;
+pub const FAMILIES: usize = 17;
+
+fn dyn_qid(sigtag: &str, arity: usize, site: (&str, u32, u32), label: &str) -> &'static str {
+    Box::leak(format!("~{}~{}~{}~{}~{}~{}", sigtag, arity, site.0, site.1, site.2, label).into_boxed_str())
+}
+
+/// every function of the engine: the table above plus the functions whose site is only known at run time
+pub fn entries() -> &'static [Entry] {
+    static ALL: std::sync::OnceLock<Vec<Entry>> = std::sync::OnceLock::new();
+    ALL.get_or_init(|| {
+        let mut v: Vec<Entry> = ENTRIES.to_vec();
+        let one: &'static [Arg] = &[Arg::U32];
+        v.push(Entry { qid: dyn_qid("gen_f", 1, gen::mg1::SITE, "mg1"), base: 37000, args: one, call: |db, x| *gen::mg1::f(db, x[0]), family: 14 });
+        v.push(Entry { qid: dyn_qid("gen_f", 1, gen::mg2::SITE, "mg2"), base: 38000, args: one, call: |db, x| *gen::mg2::f(db, x[0]), family: 14 });
+        v.push(Entry { qid: dyn_qid("gen_f", 1, gen::mg3::SITE, "mg3"), base: 39000, args: one, call: |db, x| *gen::mg3::f(db, x[0]), family: 14 });
+        v.push(Entry { qid: dyn_qid("gen_m", 1, gen::IMPL_SITE, "GA"), base: 40000, args: one, call: |db, x| *gen::GA::m(db, x[0]), family: 15 });
+        v.push(Entry { qid: dyn_qid("gen_m", 1, gen::IMPL_SITE, "GB"), base: 41000, args: one, call: |db, x| *gen::GB::m(db, x[0]), family: 15 });
+        v.push(Entry { qid: dyn_qid("inc_f", 1, inc::i1::SITE, "i1"), base: 42000, args: one, call: |db, x| *inc::i1::f(db, x[0]), family: 16 });
+        v.push(Entry { qid: dyn_qid("inc_f", 1, inc::i2::SITE, "i2"), base: 43000, args: one, call: |db, x| *inc::i2::f(db, x[0]), family: 16 });
+        v
+    })
+}
 
 pub fn entry(qid: &str) -> Option<&'static Entry> {
-    ENTRIES.iter().find(|e| e.qid == qid)
+    entries().iter().find(|e| e.qid == qid)
 }
 
 /// Is a node with this function key (and these arguments) present, and what does it hold?
